@@ -2,8 +2,8 @@
 from propslib import comp_scope
 
 PROP = dict(
-    extract=["editor"],
-    lean_targets=["Chewing.Props.C01"],
+    extract=["editor", "capi_keys"],
+    lean_targets=["Chewing.Props.C01", "Chewing.Props.C06CApi"],
     runs=[
         # pure Rust API: every operation is a transcript record the model recomputes (panic outcomes included);
         # oracle_c01.rs reports every panic / hang of an operation or of a read-only accessor
@@ -12,10 +12,13 @@ PROP = dict(
         dict(bin="editor", args=["--script", "c01"], tag="editor-c01-breaks"),
         # C API in forked workers with a per-call watchdog: oracle only (`!oracle C01 <class> <history>`), no records
         dict(bin="capi_crash", timeout=1500, timeout_thorough=3000),
+        # C call glue: every call of a generated C-API history is a record `capiops call` (Lean model of capi/src/io.rs =
+        # harness twin; twin = real C context by the getter comparison) - the tie of Props/C06CApi.lean C_step / C_run
+        dict(bin="capi_props", tag="capi_props", args=["--histories", "150", "--calls", "40"], args_thorough=["--histories", "3000", "--calls", "40"]),
     ],
     # a crash anywhere is C01's: every editor step record is in scope (keys, select, options, layout, engine,
     # learn / unlearn, commit, clear, jump, ...)
-    scope=comp_scope("ed"),
+    scope=comp_scope("ed", "capiops"),
     level="proof",
     exhaustive=False,
     rule="one evaluation = one operation of the real Editor (generated sessions: weighted grammar + a uniform stream over the 63 "
@@ -122,7 +125,14 @@ MANIFEST = dict(
          "selector_loops_terminate / init_terminates: fuel sufficiency of every selector loop with its progress argument, over "
          "ANY dictionary. The first proof attempt in the jump corner uncovered finding F41, confirmed as an abort on the real C "
          "API and repaired (f41_history_repaired). "
-         "Outside the theorems: the C glue capi/src/io.rs. The theorems rest on the tie: per-operation correspondence of model and real Editor from its own "
+         "The C call glue of capi/src/io.rs is inside the model since round 3 (Model/CApiOps.lean over tables regenerated from io.rs; "
+         "Props/C06CApi.lean): translate_total (the glue's own .expect(\"invalid keycode\") cannot fire on any of the eight keyboards, whatever "
+         "int is passed), C_step / C_run (from every context whose editor satisfies SafeInv, EVERY history of chewing_handle_* (any int), "
+         "chewing_cand_open / close / choose_by_index (any int) / list_*, commit_preedit_buf, clean_*_buf, ack, Reset returns - by translating "
+         "each call to a list of at most one Editor operation, runCall_run, and C01_run), ctrlNum_non_digit / default_out_of_range / "
+         "numlock_out_of_range (a request that cannot be honoured is reported through the return code only / treated as the Unknown key), "
+         "null_context (NULL -> -1); tie: records `capiops call` of the capi_props run. Outside the glue model: option setters, keyboard "
+         "type, selection-key setter (C16's Model/Config.lean), user-phrase calls, string getters (C15). The theorems rest on the tie: per-operation correspondence of model and real Editor from its own "
          "pre-state (panic outcomes included, 0 differences), the editor-harness oracle (any panic / hang of an operation or "
          "accessor) and a C-API crash/hang campaign in forked workers with a per-call watchdog (all 256 key codes, options, 17 "
          "keyboard types, 3 engines mid-composition, candidate and user-phrase calls with hostile arguments, every getter after "
